@@ -852,6 +852,58 @@ func c14OwnQueue(r *gen.Rng, o *out.W) {
 	o.Sample(fmt.Sprintf("own-queue flood, queue %d, %d lines", q, len(w.trace)))
 }
 
+// deliveries wait in the session queue (window 1, first delivery unacknowledged) while the subscriber changes the
+// subscriptions they were queued under — unsubscribes the only matching filter, lowers or raises its grant, adds an
+// overlapping one — and only then acknowledges: whatever comes out is capped by the grant it was queued under (C06),
+// and so are retained replays (C11)
+func c06Backlog(r *gen.Rng, o *out.W, prop string) {
+	w := newWorld(o, prop, 1, 100, nil)
+	s := w.Conn()
+	w.Connect(s, "S", r.Bool(), nil, 0, "", "")
+	p := w.Conn()
+	w.Connect(p, "P", true, nil, 0, "", "")
+	filters := []string{"#", "a/#", "a/+", "a/b", "+/b"}
+	qs := func() packet.QOS { return packet.QOS(r.Intn(3)) }
+	retained := prop == "C11"
+	if retained {
+		for _, tp := range []string{"a/b", "a/c", "d"} {
+			if r.Intn(4) != 0 {
+				w.Publish(p, tp, qs(), true, false)
+				if len(w.peers[p].open2) > 0 {
+					w.Release(p)
+				}
+			}
+		}
+	}
+	// use up the window: one QoS 1 delivery that stays unacknowledged for now
+	w.Subscribe(s, packet.Subscription{Topic: "hold", QOS: 1})
+	w.Publish(p, "hold", 1, false, false)
+	f := filters[r.Intn(len(filters))]
+	w.Subscribe(s, packet.Subscription{Topic: f, QOS: qs()})
+	for i := 0; i < 2+r.Intn(4); i++ {
+		w.Publish(p, []string{"a/b", "a/b", "a/c"}[r.Intn(3)], qs(), retained && r.Intn(3) == 0, false)
+		if len(w.peers[p].open2) > 0 {
+			w.Release(p)
+		}
+	}
+	for i := 0; i < 1+r.Intn(3); i++ {
+		switch r.Intn(4) {
+		case 0, 1:
+			w.Unsubscribe(s, f)
+		case 2:
+			w.Subscribe(s, packet.Subscription{Topic: f, QOS: qs()})
+		default:
+			w.Subscribe(s, packet.Subscription{Topic: filters[r.Intn(len(filters))], QOS: qs()})
+		}
+	}
+	for round := 0; round < 40 && w.alive(s) && len(w.peers[s].unacked) > 0; round++ {
+		w.AckAll(s)
+	}
+	w.finish()
+	o.Distinct(strings.Join(w.trace, "\n"))
+	o.Sample(fmt.Sprintf("backlog under %q, %d lines", f, len(w.trace)))
+}
+
 // the publisher's own queue is full when its QoS 2 message is released (C07): the backend has already queued the
 // message for the sessions it visited first, then refuses; the publisher is closed with the message still stored and
 // the PUBREL it retransmits on the resumed session hands the message on a second time
@@ -1360,6 +1412,7 @@ func TestHarness(t *testing.T) {
 			// small windows too: messages then sit in the session queue while subscriptions change
 			return profile{window: []int{1, 2, 3, 10, 10}[r.Intn(5)], queue: 100, clients: 1 + r.Intn(5), steps: 30 + r.Intn(40), wSub: 6, wUnsub: 3, wPub: 10, wAck: []int{2, 7}[r.Intn(2)], wPing: 1, qos: all, multiFilter: true}
 		})
+		sc("C06 backlog", func(r *gen.Rng, o *out.W) { c06Backlog(r, o, "C06") })
 		sc("C06 concurrent storm", func(r *gen.Rng, o *out.W) { concStorm(r, o, "C06") })
 	case "C07":
 		sc("C07 publisher script", c07Script)
@@ -1376,6 +1429,7 @@ func TestHarness(t *testing.T) {
 		rs("C11 retained", func() profile {
 			return profile{window: 10, queue: 100, clients: 2 + r.Intn(3), steps: 30 + r.Intn(40), wSub: 8, wUnsub: 1, wPub: 10, wAck: 6, wDrop: 1, wRecon: 2, retain: 60, wills: true, emptyWills: true, qos: all, multiFilter: true}
 		})
+		sc("C11 backlog", func(r *gen.Rng, o *out.W) { c06Backlog(r, o, "C11") })
 		sc("C11 subscribe/publish storm", c11Storm)
 	case "C12":
 		sc("C12 termination", c12Script)
